@@ -65,7 +65,8 @@ def dump_value(v):
     data = {
         'id': v.node_call_id,
         'errors': v.errors,
-        'value': v._value,
+        # a handler may have returned the Value of an event it fired
+        'value': v.value,
         'meta': meta,
     }
     return json.dumps(data)
